@@ -931,9 +931,28 @@ def run_independence(case):
   w_ne = [1.0 + 2.0 * i for i in range(n)]
   seen = {rng_bytes(state.rng)}
   prev = None
+  singles = []   # ((round, slot), that client's quantized vector)
   for r in range(case['rounds']):
     where = f'round {r} {kind} L={levels} n={n}'
     (o_eq,), st_eq = apply_once(agg, template, [tree] * n, w_eq, state)
+    # Each client's own quantized vector, recovered with one-hot weights from
+    # the same state: every (round, client position) pair must have been
+    # quantized with its own randomness -- also position j+1 of one round versus
+    # position j of the next.
+    for j in range(n):
+      w_j = [1.0 if i == j else 0.0 for i in range(n)]
+      (o_j,), st_j = apply_once(agg, template, [tree] * n, w_j, state)
+      require(bool(np.isfinite(o_j).all()), f'{kind}:nonfinite', f'{where} one-hot {j}')
+      require(rng_bytes(st_j.rng) == rng_bytes(st_eq.rng),
+              'apply:state_depends_on_weight_scale', f'{where} one-hot {j}')
+      for (r0, j0), o_0 in singles:
+        require(differs(kind, levels, v64, o_0, o_j),
+                'independence:client_of_one_round_shares_randomness_with_client_of_another'
+                if r0 != r else 'independence:clients_share_randomness',
+                f'{where}: client position {j} of round {r} and position {j0} of round '
+                f'{r0} hold the same {size}-vector and were quantized identically; '
+                f'first coords {o_j[:4].tolist()}')
+      singles.append(((r, j), o_j))
     (o_ne,), st_ne = apply_once(agg, template, [tree] * n, w_ne, state)
     require(bool(np.isfinite(o_eq).all() and np.isfinite(o_ne).all()), f'{kind}:nonfinite', where)
     require(rng_bytes(st_eq.rng) == rng_bytes(st_ne.rng), 'apply:state_depends_on_weight_scale', where)
